@@ -28,12 +28,12 @@ def parse_perrs(s):
 # ---------------------------------------------------------------- C14
 C14_THMS = ['Theo.C14_nullable_correct', 'Theo.C14_deriv_correct', 'Theo.C14_matchesB_correct', 'Theo.C14_longest_match',
             'Theo.C14_longest_none', 'Theo.C14_total', 'Theo.C14_partition', 'Theo.C14_each_maxmunch',
-            'Theo.C14_tokens_are_lexemes', 'Theo.C14_lines', 'Theo.C14_keywords', 'Theo.C14_keywords_documented', 'Theo.C14_identifier_words', 'Theo.C14_identifier_only', 'Theo.C14_word_one_token', 'Theo.C14_catch_all',
+            'Theo.C14_tokens_are_lexemes', 'Theo.C14_lines', 'Theo.C14_keywords', 'Theo.C14_keywords_documented', 'Theo.C14_silent_rules_documented', 'Theo.C14_identifier_words', 'Theo.C14_identifier_only', 'Theo.C14_word_one_token', 'Theo.C14_catch_all',
             'Theo.C14_one_eof', 'Theo.C14_token_files']
 
 
 def check_C14(ctx):
-    build_all(ctx, ['Theo.Props.C14', 'Theo.Props.C14Ident', 'Theo.Props.C15'], C14_THMS)
+    build_all(ctx, ['Theo.Props.C14', 'Theo.Props.C14Ident', 'Theo.Props.C14Silent', 'Theo.Props.C15'], C14_THMS)
     if ctx.harness is None:
         return finish(ctx)
     # (a) the committed scanner is what flex generates from lexer.l
@@ -111,6 +111,32 @@ def check_C14(ctx):
             ctx.violation('keyword-spelling', 'the word %r lexes to %s; documented: %s' % (x, got, 'keyword kind %d' % doc[x] if x in doc else 'an identifier (not a documented keyword spelling)'),
                           {'buffer_hex': x.encode().hex()})
     ctx.cov['near_miss_words_checked'] = len(words)
+    # comments and whitespace produce nothing (documented: `//` up to the end of the line OR of the file; blank, tab, newline):
+    # metamorphic — appending / inserting a comment or blanks never changes the tokens (kinds, texts, lines)
+    rr = ctx.rnd
+    bases_ = [b'x := 1', b'LOOP x DO y := y + 1 END', b'a', b'', b'x := 1 ;\ny := 2', b'include', b'DEFINE a AS b END DEFINE a', b'x := RUN f WITH 1 , 2 END']
+    ctexts = [b'', b' end of lib', b'x := 99', b'/ / //', b'"quoted"', b'\tLOOP', b' 123 #1 $2 <P>', b'\r']
+    mreqs, mexp = [], []
+    for b0 in bases_:
+        try:
+            ref = lexoracle.lex(b0)
+        except Exception:
+            continue
+        for ct in ctexts:
+            for variant in (b0 + b'//' + ct, b0 + b' //' + ct, b0 + b'\t//' + ct + b'\n', b0 + b'//' + ct + b'\n   \t', b'//' + ct + b'\n' + b0,
+                            b'  \t' + b0 + b'   ', b0 + b' ' * rr.randint(1, 5)):
+                lead = variant.index(b0) if b0 and b0 in variant else 0
+                shift = variant[:lead].count(b'\n')
+                mreqs.append(variant)
+                mexp.append([(k, t, l + shift) for (k, t, l) in ref])
+    outs = impl(ctx, ['LEX c ' + hx(v) for v in mreqs])
+    for v, e, o in zip(mreqs, mexp, outs):
+        ctx.cov['evaluations'] += 1
+        got = [(k, t, l) for (k, t, _, l) in parse_toks(fields(o)['toks'])] if not is_crash(o) else None
+        if got != e:
+            ctx.violation('comment-or-blank-produces-tokens', 'the buffer %r lexes to %s; its comments and blanks removed it lexes to %s' % (v, got, e), {'buffer_hex': v.hex()})
+            break
+    ctx.cov['comment_blank_variants_checked'] = len(mreqs)
     # (d) stream level: include splice
     cases = front.include_graphs(ctx, ctx.n(400, 4000))
     sa, sb = front.corr_scan(ctx, cases)
@@ -178,7 +204,13 @@ def check_C15(ctx):
             continue
         got = [unhx(r) for r in lst(fields(x)['req'], ',')]
         # the front end prepends `include "__standards__"` to the main file: same graph plus one present file
-        _, eerrs = lexoracle.scan(files, mainf)
+        # (if the user supplies a file of that name, it is THAT file that is included first — with whatever it includes)
+        f2 = dict(files)
+        if mainf in f2:
+            f2[mainf] = b'include "__standards__" ' + f2[mainf]
+        if b'__standards__' not in f2:
+            f2[b'__standards__'] = std_macro_text()
+        _, eerrs = lexoracle.scan(f2, mainf)
         exp = [e[3] for e in eerrs if e[0] in ('FILE_NOT_FOUND', 'MAIN_FILE_NOT_FOUND')]
         if got != exp:
             ctx.violation('file-requests', 'file_requests %s, expected %s' % (got, exp), desc)
@@ -237,6 +269,13 @@ def tables_oracle(ctx, case, x, positions):
     return True
 
 
+def std_macro_text():
+    """the standard macro text as regenerated from parse.cpp (Theo/Generated/Consts.lean)"""
+    t = open(os.path.join(LEAN, 'Theo/Generated/Consts.lean')).read()
+    m = re.search(r'def stdMacroText : List UInt8 := \[([0-9, ]*)\]', t)
+    return bytes(int(x) for x in m.group(1).split(',') if x.strip())
+
+
 def check_C08(ctx):
     build_all(ctx, ['Theo.Props.C08'], C08_THMS)
     if ctx.harness is None:
@@ -253,6 +292,19 @@ def check_C08(ctx):
         cases.append((b'm', {b'm': text.encode()}, {'text': {'m': text}, 'defs': defs, 'main': main}))
     cases.append((b'm', {b'm': b'PROGRAM g IN y DO INCLUDE "c" x0 := y INCLUDE "b" PROGRAM f IN x DO x0 := x END x2 := 1',
                          b'c': b'x1 := 1;', b'b': b'END'}, {'text': 'F5 witness (header continuing a line after an include)'}))
+    # a supplied file that bears the NAME of the hidden standard-macro file (a vendored copy of the built-in operators, an
+    # unrelated file, an empty one), included or not: it is a supplied file like any other, and no location may name anything else
+    stdtext = std_macro_text()
+    extra = []
+    for (m, f, meta) in cases[:ctx.n(150, 1500)]:
+        if any(ch in b''.join(f.values()) for ch in (b'+', b'-')):
+            for content in (stdtext, stdtext + b'\nx9 := 1\n', b'', b'DEFINE ZZ AS x9 := 2 END DEFINE\n'):
+                f2 = dict(f)
+                f2[b'__standards__'] = content
+                if ctx.rnd.random() < 0.3:
+                    f2[m] = f2[m] + b'\ninclude "__standards__"\n'
+                extra.append((m, f2, {'text': {k.decode('latin1'): v.decode('latin1') for k, v in f2.items()}}))
+    cases += extra
     a, b = front.corr_gen(ctx, cases, keys=['ok', 'code', 'pb', 'li'])
     sc = impl(ctx, ['SCAN ' + files_req(m, dict(f, **{})) for (m, f, _) in cases])
     for c, x, s in zip(cases, a, sc):
@@ -288,6 +340,8 @@ TEMP_MACROS = [
                                                                            "TWICE ( x0 := x0 + 1 ); TWICE ( x1 := x1 + 2 )"]),
     ("DEFINE IFZ <V> THEN <P> FI AS #0 := $0; #1 := 1; LOOP #0 DO #1 := 0 END; LOOP #1 DO $1 END END DEFINE\n",
      ["IFZ x1 THEN x0 := 5 FI", "IFZ x1 THEN IFZ x2 THEN x0 := 7 FI FI", "x1 := 1; IFZ x1 THEN x0 := 5 FI; IFZ x2 THEN x0 := x0 + 1 FI"]),
+    # a macro WITHOUT slots whose body relies on a fresh (zero) temporary; every use is its own expansion step
+    ("DEFINE BUMP AS #0 := #0 + 1 ; LOOP #0 DO x0 := x0 + 1 END END DEFINE\n", ["BUMP", "BUMP ; BUMP", "BUMP ; BUMP ; BUMP", "LOOP a DO BUMP END ; BUMP"]),
     # a temporary that is read again *after* the slot: any collision with a temporary of the slot's own expansion changes a value
     ("DEFINE SAVE <ID> IN ( <P> ) AS #0 := $0; $1; $0 := #0 END DEFINE\n",
      ["SAVE a IN ( a := 1 )", "SAVE a IN ( a := 1; SAVE b IN ( b := 2 ) )", "SAVE a IN ( SAVE b IN ( b := 2 ); a := b )",
@@ -412,6 +466,19 @@ def check_C10(ctx):
                     if len(lx) == 1 and lx[0][0] == 1 and lx[0][1] == t[1]:
                         ctx.violation('temp-name-user-writable', 'the expansion invented the name %r, which is an ordinary identifier a user can write' % t[1], {'source': text, 'passes': b})
                         break
+        # one rewrite per pass and fresh names per rewrite: when the text has a single macro whose body has t distinct
+        # temporaries and the budget b was exhausted (b rewrites happened), exactly b*t names have been invented
+        if srcset is not None and text.count('DEFINE ') - text.count('END DEFINE') == 1 and text.count('END DEFINE') == 1:
+            body = text.split(' AS ', 1)[1].split('END DEFINE')[0]
+            tcount = len(set(re.findall(r'#\d+', body)))
+            errs_ = [e[0] for e in parse_perrs(f['errs'])]
+            if tcount and front.pe()['MACRO_APPLY_REACHED_MAX_PASSES'] in errs_:
+                invented = {t[1] for t in toks if t[1] not in srcset and t[0] == 1}
+                if len(invented) > b * tcount or (len(invented) < b * tcount and not any(t[1].startswith(b'$') for t in toks)):
+                    # fewer names than rewrites*temporaries: two expansion steps share a name (a slot may delete tokens of an
+                    # earlier step only when a body drops a slot, which these families do not)
+                    ctx.violation('temp-shared-between-steps', '%d rewriting steps of a macro with %d temporaries invented %d distinct names (%s)' % (
+                        b, tcount, len(invented), sorted(invented)[:4]), {'source': text, 'passes': b})
         temps = [t for t in toks if t[0] == 1 and t[1].startswith(b'#')]
         groups = {}
         for t in temps:
@@ -476,6 +543,7 @@ def check_C10(ctx):
         'TWICE ( x0 := x0 + 1 ); TWICE ( x1 := x1 + 2 )': {'x0': 2, 'x1': 4},
         'IFZ x1 THEN x0 := 5 FI': {'x0': 5}, 'IFZ x1 THEN IFZ x2 THEN x0 := 7 FI FI': {'x0': 7},
         'x1 := 1; IFZ x1 THEN x0 := 5 FI; IFZ x2 THEN x0 := x0 + 1 FI': {'x0': 1},
+        'BUMP': {'x0': 1}, 'BUMP ; BUMP': {'x0': 2}, 'BUMP ; BUMP ; BUMP': {'x0': 3}, 'LOOP a DO BUMP END ; BUMP': {'x0': 7},
         'SAVE a IN ( a := 1 )': {'a': 3}, 'SAVE a IN ( a := 1; SAVE b IN ( b := 2 ) )': {'a': 3, 'b': 4},
         'SAVE a IN ( SAVE b IN ( b := 2 ); a := b )': {'a': 3, 'b': 4}, 'SAVE a IN ( a := 7 ); SAVE b IN ( b := a )': {'a': 3, 'b': 4},
         'SAVE a IN ( SAVE b IN ( SAVE x0 IN ( x0 := 9; a := 1; b := 2 ) ) )': {'a': 3, 'b': 4, 'x0': 0},
